@@ -406,9 +406,10 @@ impl BuiltInFunction {
                     v_original.extend(copy);
                 } else {
                     let mut v_original = v_original_shared.0.borrow_mut();
-                    let mut v_add = v_add.0.borrow_mut();
+                    let v_add = v_add.0.borrow();
 
-                    v_original.append(v_add.as_mut());
+                    // the argument keeps its elements: `Vec::append` would leave it empty
+                    v_original.extend(v_add.iter().cloned());
                 }
 
                 Ok((Some(Primitive::Vector(v_original_shared.clone())), None))
